@@ -88,7 +88,7 @@ def c01(tier):
         w = []
         for r in ("i32", "u32"):
             fam = family_F(r, 2, 2, 2)
-            w += [fam[i] for i in (0, 5, 20, 27, 41, 54, 62)] + family_A(r)[:2] + family_L(r)[1:]
+            w += [fam[i] for i in (5, 27, 62)] + family_A(r)[:1] + family_L(r)[1:]
         wsubs = [Subj("w%03d" % i, d, b if i % 2 else a, sweep_full=True, sweep32=True, weight=5000) for i, d in enumerate(w)]
         explore(res, "%s/c01w" % tier, wsubs, phases=["conv"], opt=True, timeout=7200)
         res.bounds_extra = {"full_32bit_sweep_subjects": len(wsubs)}
